@@ -8,6 +8,9 @@ use crate::util::restion::Restion;
 use std::convert::TryFrom;
 use std::io::Read;
 
+/// The largest amount of payload memory allocated ahead of the data actually received.
+const PAYLOAD_STEP: u64 = 65536;
+
 /// Represents a frame of WebSocket data.
 /// Follows [Section 5.2 of RFC 6455](https://datatracker.ietf.org/doc/html/rfc6455#section-5.2)
 #[derive(Debug, Clone, PartialEq, Eq)]
@@ -140,10 +143,21 @@ impl Frame {
         };
 
         // Read the payload
-        let mut payload: Vec<u8> = vec![0; length as usize];
+        // The claimed length is not trusted: the buffer grows by at most `PAYLOAD_STEP` bytes
+        //   beyond what has actually been received.
+        let mut payload: Vec<u8> = vec![0; length.min(PAYLOAD_STEP) as usize];
         stream
             .read_exact(&mut payload)
             .map_err(|_| WebsocketError::ReadError)?;
+
+        while (payload.len() as u64) < length {
+            let remaining = length - payload.len() as u64;
+            let mut chunk: Vec<u8> = vec![0; remaining.min(PAYLOAD_STEP) as usize];
+            stream
+                .read_exact(&mut chunk)
+                .map_err(|_| WebsocketError::ReadError)?;
+            payload.append(&mut chunk);
+        }
 
         // Unmask the payload
         payload
